@@ -9,5 +9,11 @@ CLAIMS = {
         "technique": "Lean 4 theorems (omega) on a hand-written model + exhaustive correspondence with the Rust type",
     },
 }
+CLAIMS["C20"] = {
+    "text": "Every clause of C20 is a Lean theorem about the model of UniqueSortedVec, for any element type with a lawful total order and all operands (31 theorems: From<Vec>, union incl. closed form and algebraic laws, contains, find_first_following, reachability closure); tie to the code: exhaustive small-alphabet enumeration through the real type plus random and UTF-8 string cases, spec predicate (plain list/set operations) evaluated on the implementation's output.",
+    "design_ref": "§5 C20",
+    "note": "Trusted: Lean kernel + {propext, Quot.sound}; hand-written model OH/Model/SortedVec.lean; harness/driver. Modelled not verified: sort_unstable+dedup, slice::binary_search (contract proved to determine the result uniquely on sorted input). Cannot exhibit: stack exhaustion of the recursive union on ~60k interleaved elements (observed as an abort in a manual probe, far beyond comment-list sizes).",
+    "technique": "Lean 4 theorems (induction, fun_induction) on a hand-written model + exhaustive/random correspondence",
+}
 ALL = [f"C{i:02d}" for i in range(1, 21)]
 NOT_APPLICABLE = {p: PENDING for p in ALL if p not in CLAIMS}
